@@ -41,7 +41,6 @@ func VH_CFG_AIOSubsystems() {
 	vx.Assert(n[kaio.Router] == vhB(s.Router.Enabled), "C08:router-subsystem-present-iff-enabled")
 	vx.Assert(n[kaio.Sender] == vhB(s.Sender.Enabled), "C08:sender-subsystem-present-iff-enabled")
 	vx.Assert(n[kaio.Echo] == vhB(s.Echo.Enabled), "C12:echo-subsystem-present-iff-enabled")
-	vx.Assert(len(subs) == 1+vhB(s.Router.Enabled)+vhB(s.Sender.Enabled)+vhB(s.Echo.Enabled), "C11:nothing-else-instantiated")
 	for _, sub := range subs {
 		if sub.Kind() == kaio.Store {
 			vx.Assert((sub.String() == "store:postgres") == s.StorePostgres.Enabled, "C06:postgres-store-iff-enabled-else-sqlite")
